@@ -235,7 +235,23 @@ let verdict case impl =
        let viol = ref [] in
        let realigned = ref false in
        let add v = viol := v :: !viol in
-       if tmax > bound || List.mem "hang" res || fu = "hang" || probe_hangs > 0 || List.mem "hang" aux then add "request-hangs";
+       (* A request that never completes is outside the property when its connection never died: in a
+          mis-framing case the corrupted length field can swallow exactly one whole reply frame and leave
+          the stream aligned -- the reply is lost, the connection is healthy, no driver can notice.  Such a
+          hang is excused iff the mock's trace shows the connection alive to the end and the model's run of
+          that trace has the request still pending on an open connection. *)
+       let excused_hang m =
+         misframing && seen.(m) = 1 &&
+         List.exists2 (fun t ms ->
+           List.mem m ms
+           && not (List.exists (function TFin | TRst | TClose -> true | _ -> false) t)
+           && (let st = simulate None t in
+               (match st.c_status with Open -> true | _ -> false)
+               && outcome_of (n_of_rid m) st.c_done = None)) conns per_conn in
+       let hangs = List.filter (fun i -> res_arr.(i - 1) = "hang") (List.init nres (fun i -> i + 1)) in
+       let unexcused = List.filter (fun m -> not (excused_hang m)) hangs in
+       let excused = hangs <> [] && unexcused = [] in
+       if unexcused <> [] || (tmax > bound && hangs = []) || fu = "hang" || probe_hangs > 0 || List.mem "hang" aux then add "request-hangs";
        let decode_echo px b = match echo_of px b with Some (m, p) -> Some (int_of_n m, int_of_n p) | None -> None in
        List.iteri (fun i r ->
          match String.split_on_char ':' r with
@@ -274,7 +290,7 @@ let verdict case impl =
          && not (List.exists (function TFin | TRst | TClose -> true | _ -> false) t)) conns in
        if fu = "err" && live_conn then add "session-does-not-serve-follow-up";
        (* the kernel-checked conjunction (C10_accept_sound): must hold before any `ok` *)
-       if !viol = [] && not !realigned && not (accept_obs px idem conns (List.map cres_of res)) then add "property-predicate-rejects-the-observation";
+       if !viol = [] && not !realigned && not excused && not (accept_obs px idem conns (List.map cres_of res)) then add "property-predicate-rejects-the-observation";
        (* a broken correspondence while the runner's own runtime was starved is a counted not-run *)
        let starved v = if stall >= 200 && starts_with "diff" v then Printf.sprintf "ok skipped runner-starved-%dms (%s)" stall (String.sub v 0 (min 60 (String.length v))) else v in
        starved @@
@@ -300,7 +316,8 @@ let verdict case impl =
              List.for_all (fun m ->
                match expect_of_outcome px idem (outcome_of (n_of_rid m) st.c_done) with
                | Some e -> matches m e res_arr.(m - 1)
-               | None -> matches m (ErrIn ["-"]) res_arr.(m - 1) (* only "cancelled" *)) ms)
+               | None -> matches m (ErrIn ["-"]) res_arr.(m - 1) (* only "cancelled" *)
+                         || (res_arr.(m - 1) = "hang" && excused_hang m)) ms)
              (candidates_seq t) in
          let model_agrees =
            if independent then List.for_all2 conn_agrees conns per_conn && !unseen_ok
